@@ -199,8 +199,9 @@ pub fn gen_plan(property: &str, seed: u64, index: u64, tier: Tier) -> Plan {
             if mode < 3 {
                 // fresh context per search, sparse board, deeper
                 let (_, s) = choose_start(&mut rng, &[(StartKind::Endgame, 1)]);
-                start = if rng.chance(1, 4) { Pos::from_fen(*rng.pick(&TERMINAL_FENS[..])).unwrap() } else { s };
-                depth = if thorough { rng.range(3, 5) as u8 } else { rng.range(3, 4) as u8 };
+                let roll = rng.below(8);
+                start = if roll < 2 { Pos::from_fen(*rng.pick(&TERMINAL_FENS[..])).unwrap() } else if roll < 4 { crate::gen::promotion_ending(&mut rng) } else { s };
+                depth = if roll >= 2 && roll < 4 { rng.range(2, 4) as u8 } else if thorough { rng.range(3, 5) as u8 } else { rng.range(3, 4) as u8 };
                 knobs.insert("reuse".into(), 0);
                 scenario = "fresh-context-endgame";
             } else if mode < 5 {
@@ -219,6 +220,8 @@ pub fn gen_plan(property: &str, seed: u64, index: u64, tier: Tier) -> Plan {
                 let crowded = start.piece_count() > 14;
                 depth = if crowded { rng.range(1, 2) as u8 } else { rng.range(2, 3) as u8 };
                 knobs.insert("reuse".into(), 1);
+                // through the Game wrapper (its own long-lived context and generator), as the loops do
+                knobs.insert("via_game".into(), rng.chance(1, 3) as i64);
                 // 0: search for both sides (watch); 1: only for one side (play)
                 knobs.insert("one_side".into(), rng.chance(1, 2) as i64);
                 scenario = "reused-context-game";
@@ -388,7 +391,7 @@ pub fn exec(plan: &Plan) -> Outcome {
     }];
     let mut board: Board = build_board(&model[0], None);
     let mut game: Option<Game> = if via_game {
-        Some(Game::from_board(build_board(&model[0], None), plan.knob("game_depth", 1) as u8))
+        Some(Game::from_board(build_board(&model[0], None), if prop == "C08" { run_depth } else { plan.knob("game_depth", 1) as u8 }))
     } else {
         None
     };
@@ -588,23 +591,30 @@ pub fn exec(plan: &Plan) -> Outcome {
                         continue;
                     }
                     let mut fresh_ctx;
-                    let c: &mut SearchContext = if reuse {
+                    let (depth_used, r, score): (u8, Result<ChessMove, String>, Option<i16>) = if let Some(g) = game.as_mut() {
                         stats.bump("fault/context-reused");
-                        &mut ctx
+                        stats.bump("probe/search-through-the-game-wrapper");
+                        let r = g.select_alpha_beta_best_move().map_err(|e| format!("{:?}", e));
+                        (g.search_depth(), r, g.alpha_beta_score())
                     } else {
-                        fresh_ctx = SearchContext::new(*d);
-                        &mut fresh_ctx
+                        let c: &mut SearchContext = if reuse {
+                            stats.bump("fault/context-reused");
+                            &mut ctx
+                        } else {
+                            fresh_ctx = SearchContext::new(*d);
+                            &mut fresh_ctx
+                        };
+                        let depth_used = c.search_depth();
+                        let r = alpha_beta_search(c, &mut board, &mut gen).map_err(|e| format!("{:?}", e));
+                        if c.cache_hit_count() > 0 {
+                            stats.bump("probe/result-cache-hit-served");
+                        }
+                        (depth_used, r, c.last_score())
                     };
-                    let depth_used = c.search_depth();
-                    let r = alpha_beta_search(c, &mut board, &mut gen);
-                    let score = c.last_score();
-                    if c.cache_hit_count() > 0 {
-                        stats.bump("probe/result-cache-hit-served");
-                    }
                     let em = match r {
                         Ok(m) => m,
                         Err(e) => {
-                            out.desync = Some(format!("search-error {:?}", e));
+                            out.desync = Some(format!("search-error {}", e));
                             break;
                         }
                     };
